@@ -12,6 +12,13 @@
 //	route display   Display of the same abstract value built in both libraries is the same text (and stable)
 //	route prog-eq   generated programs using ==, !=, println and .to_string() on both backends
 //	route prog-json generated programs `a.to_json().parse_json() as T` / `let b: T = ...` on both backends
+//	route prog-forms generated programs that put pairs of up to 14 values through every construct defined
+//	                by equality (==, !=, through parameters, as branch condition, wrapped into a list / option /
+//	                object, list.contains, match arms) on both backends (forms.go)
+//
+// The pools of the eq, display and prog routes contain, next to the structural near misses, the
+// closest distinct LEAF values (forms.go: ints that collide as float64 / int32, adjacent floats,
+// strings differing in the last rune or by a blank, ranges / any-objects holding such ints).
 //
 // The oracles are the algebraic laws plus valuni.StructEq and a shadow model of the mutations.
 package c13
@@ -36,8 +43,8 @@ func (c13) Info(tier string) fw.Info {
 		Level: "exploration",
 		Rule: "cases: one per (route, library, static type T) over every type of depth <= 2 of {int,float,bool,str,null,range,[T],{a:T},{a:T,b:U},{?},?T} (thorough: wider pools, " +
 			"seed-sampled depth-3 types, 10x histories). eq: a pool of values of T containing equal values, single-position near misses (last element, one field, Some/none, " +
-			"inclusive/exclusive range, any-object key on one side only) and unrelated values, all ordered pairs and all triples. clone: every pool value, seed-generated histories of 1-20 " +
-			"mutations at random depth. json/display/prog: every pool value that the route can carry. non-trivial = eq: the pool contained both an equal and an unequal pair of distinct " +
+			"inclusive/exclusive range, any-object key on one side only), closest distinct leaf values (ints above 2^53 / 2^32 apart, adjacent floats, strings differing in the last rune) and unrelated values, all ordered pairs and all triples. clone: every pool value, seed-generated histories of 1-20 " +
+			"mutations at random depth. json/display/prog: every pool value that the route can carry; prog-forms: per type and window of leaf-edge groups one program over <= 14 values (thorough 20) printing all pairs through == and !=, and neighbouring pairs through fn parameters, if, [a]==[b], (?a)==(?b), new{w:a}==new{w:b}, [b].contains(a) and match arms. non-trivial = eq: the pool contained both an equal and an unequal pair of distinct " +
 			"instances; clone: at least one mutation was applied below the root and both sides were compared afterwards; json: a round trip was completed and compared; " +
 			"display: both libraries rendered; prog: both backends ran to completion; distinct = distinct (route, lib, type, value list / history seed)",
 		Assumptions: []string{
@@ -116,6 +123,7 @@ type payload struct {
 	Avoid []string `json:"avoid,omitempty"`
 	Seed  uint64   `json:"seed,omitempty"`
 	Hist  int      `json:"hist,omitempty"` // clone: histories per value
+	Part  int      `json:"part,omitempty"` // prog-forms: which window of the edge groups
 	// Explicit mode: exactly these values (eq: all ordered pairs among them).
 	Vals []vu.Val `json:"vals,omitempty"`
 }
@@ -290,8 +298,33 @@ func progConstructs(v vu.Val, t vu.Type) []string {
 // Pools
 // ---------------------------------------------------------------------------------------------
 
-// pool returns the value pool of a gen-mode case.
+// pool returns the value pool of a case: in gen mode the base pool plus, on the routes that compare
+// or render values (eq, display, prog-eq), the precision-edge values of the type (forms.go). The
+// clone and json routes keep the base pool: histories do not depend on leaf content, and integers
+// beyond 2^53 are an open finding of the JSON routes.
 func pool(p payload) []vu.Val {
+	vals := basePool(p)
+	if p.Vals != nil {
+		return vals
+	}
+	switch p.Route {
+	case "eq", "display", "prog-eq":
+		seen := map[string]bool{}
+		for _, v := range vals {
+			seen[v.String()] = true
+		}
+		for _, e := range edgeValues(p.T, p.Width) {
+			if !seen[e.String()] {
+				seen[e.String()] = true
+				vals = append(vals, e)
+			}
+		}
+	}
+	return vals
+}
+
+// basePool returns the value pool of a gen-mode case without the edge values.
+func basePool(p payload) []vu.Val {
 	if p.Vals != nil {
 		return p.Vals
 	}
@@ -334,9 +367,9 @@ func (c13) Cases(tier string, seed uint64) []fw.Case {
 	thorough := tier == "thorough"
 	r := fw.NewRng(seed ^ 0xC13)
 	types := vu.TypesUpTo2()
-	width, max, hist, progN := 2, 14, 4, 3
+	width, max, hist, progN, formsN := 2, 14, 4, 3, 14
 	if thorough {
-		width, max, hist, progN = 3, 24, 40, 12
+		width, max, hist, progN, formsN = 3, 24, 40, 12, 20
 		seen := map[string]bool{}
 		for len(seen) < 300 {
 			t := vu.SampleDepth3(r)
@@ -365,6 +398,10 @@ func (c13) Cases(tier string, seed uint64) []fw.Case {
 		add(payload{Route: "clone", Lib: "vm", T: t, Width: width, Max: max, Avoid: avoid, Seed: r.Next(), Hist: hist})
 		add(payload{Route: "display", Lib: "both", T: t, Width: width, Max: max, Avoid: avoid})
 		add(payload{Route: "prog-eq", Lib: "both", T: t, Width: width, Max: progN, Avoid: avoid, Seed: r.Next()})
+		parts := len(edgeWindows(t, width, formsKeep(formsN)))
+		for part := 0; part < parts || part == 0; part++ {
+			add(payload{Route: "prog-forms", Lib: "both", T: t, Width: width, Max: formsN, Avoid: avoid, Part: part})
+		}
 		if t.K == vu.TList || t.K == vu.TObj || t.K == vu.TAnyObj {
 			if jsonCarries(vu.Typed(t, 2)[0], t) {
 				add(payload{Route: "prog-json", Lib: "both", T: t, Width: width, Max: progN, Avoid: avoid, Seed: r.Next()})
@@ -392,6 +429,8 @@ func (c13) Run(c fw.Case) (res fw.Result) {
 		j.progEq()
 	case "prog-json":
 		j.progJSON()
+	case "prog-forms":
+		j.progForms()
 	default:
 		return fw.Result{Verdict: fw.Inconclusive, Why: "unknown route " + p.Route}
 	}
